@@ -48,10 +48,12 @@ class SeqModel:
 
     def __init__(self, nsess: int = 2, oracle: str = 'c01',
                  cmds=None, idle: bool = True, observer: bool = False,
-                 probe_cmd: bytes = b'NOOP') -> None:
+                 probe_cmd: bytes = b'NOOP', predeleted: bool = False) -> None:
         self.nsess = nsess
         self.oracle = oracle
         self.observer = observer
+        # start from a non-initial state: messages 1 and 2 already \Deleted
+        self.predeleted = predeleted
         if isinstance(probe_cmd, str):
             probe_cmd = probe_cmd.encode()
         self.probe_cmd = probe_cmd
@@ -59,7 +61,7 @@ class SeqModel:
         table = dict(CMDS)
         self.params = {'nsess': nsess, 'oracle': oracle, 'cmds': names,
                        'idle': idle, 'observer': observer,
-                       'probe_cmd': probe_cmd}
+                       'probe_cmd': probe_cmd, 'predeleted': predeleted}
         self._alpha = []
         for si in range(nsess):
             for n in names:
@@ -82,8 +84,10 @@ class SeqModel:
             st = ctx.do(si, b'LOGIN alice pw')
             assert st.cond == 'OK', st.raw
         for i in (1, 2, 3):
-            st = ctx.do(0, b'APPEND INBOX (\\Seen) ' + lit(msg(i))
-                        if i == 2 else b'APPEND INBOX ' + lit(msg(i)))
+            fl = b'(\\Seen) ' if i == 2 else b''
+            if self.predeleted and i in (1, 2):
+                fl = b'(\\Deleted) ' if i == 1 else b'(\\Seen \\Deleted) '
+            st = ctx.do(0, b'APPEND INBOX ' + fl + lit(msg(i)))
             assert st.cond == 'OK', st.raw
         st = ctx.do(0, b'CREATE Other')
         assert st.cond == 'OK', st.raw
